@@ -16,6 +16,20 @@ VERIF = os.path.dirname(HERE)
 PROPS = ('C01', 'C02', 'C06', 'C07', 'C10', 'C11', 'C12', 'C16', 'C18', 'C19')
 
 
+def repo_hash(repo=None):
+    """hash of the tree under test only (library sources, schema copies, verysimpletree)"""
+    repo = repo or os.environ.get('VERIF_REPO', '/repo')
+    h = hashlib.sha256()
+    files = sorted(glob.glob(os.path.join(repo, 'musicxml', '**', '*.py'), recursive=True)) + sorted(glob.glob(os.path.join(repo, 'musicxml', '**', '*.xsd'), recursive=True))
+    for f in files:
+        if '/tests/' in f:
+            continue
+        h.update(f.encode()); h.update(open(f, 'rb').read())
+    import verysimpletree.tree as T
+    h.update(open(T.__file__, 'rb').read())
+    return h.hexdigest()[:16]
+
+
 def source_hash(repo=None):
     repo = repo or os.environ.get('VERIF_REPO', '/repo')
     h = hashlib.sha256()
@@ -28,7 +42,7 @@ def source_hash(repo=None):
         if os.path.basename(f) in ('hist.py', 'xsdspec.py', 'elem.py'):
             h.update(open(f, 'rb').read())
     import inspect
-    for fn in (eval_type, bounds, unique_arrangement, hstr, type_elements):      # the semantic part of this module (not the scheduling)
+    for fn in (eval_type, bounds, unique_arrangement, hstr, type_elements, inorder_words):      # the semantic part of this module (not the scheduling)
         h.update(inspect.getsource(fn).encode())
     import verysimpletree.tree as T
     h.update(open(T.__file__, 'rb').read())
@@ -53,6 +67,29 @@ def bounds(tier, alpha):
             return 1, 0, 2          # very large alphabets: removal/replacement variants after one add, all add-sequences up to 2
         return (3 if n <= 5 else 2), (1 if n <= 8 else 0), (3 if n <= 8 else 0)
     return (4 if n <= 5 else 3 if n <= 10 else 2), (1 if n <= 14 else 0), (4 if n <= 6 else 3 if n <= 12 else 0)
+
+
+def inorder_words(model, alpha, max_len, cap, skip_upto):
+    """C02's own quantifier, bounded: every viable in-order prefix of the content model (breadth first by length, then lexicographic),
+    lengths skip_upto+1 .. max_len, at most `cap` of them"""
+    out = []
+    level = [((), model)]
+    for n in range(1, max_len + 1):
+        nxt = []
+        for w, r in level:
+            for a in alpha:
+                d = xsdspec.deriv(r, a)
+                if d != xsdspec.EMPTY and xsdspec.nonempty(d):
+                    nxt.append((w + (a,), d))
+        level = nxt
+        if n > skip_upto:
+            for w, r in level:
+                out.append(tuple(('add', a) for a in w))
+                if len(out) >= cap:
+                    return out
+        if len(level) > 4 * cap:
+            level = level[:4 * cap]
+    return out
 
 
 def hstr(h):
@@ -112,7 +149,11 @@ def eval_type(args):
             obs_cache[key] = hist.observe(lib, name, h, alpha, check)
         return obs_cache[key]
 
-    for idx, h in enumerate(hist.histories(alpha, k_add, dup_names=dups, k_after=k_after, k_add_only=k_add_only)):
+    lw, cap = (5, 1200) if tier == 'quick' else (7, 20000)
+    extra_words = inorder_words(model, alpha, lw, cap, max(k_add, k_add_only))
+    import itertools as _it
+    extra_set = set(extra_words)
+    for idx, h in enumerate(_it.chain(hist.histories(alpha, k_add, dup_names=dups, k_after=k_after, k_add_only=k_add_only), extra_words)):
         if idx % nshards != shard:
             continue
         n_hist += 1
@@ -172,15 +213,16 @@ def eval_type(args):
                     fail('C16', h, 'output is not well-formed')
                 elif v[1] not in {c.__name__ for c in lib.documented}:
                     fail('C19', h + (('str', ic),), f'undocumented exception {v[1]} from to_string')
-            # C16 purity / determinism: to_string has no observable effect
-            counts['C16'] += 1
-            b = observe(h)
-            for ic in (False, True):
-                a = observe(h + (('str', ic),))
-                bad = [key for key in ('ordered', 'insertion', 'verdict', 'accepts') if a[key] != b[key]]
-                if bad and (a['outs'][-1] == 'ok' or not ic):
-                    fail('C16', h, f'to_string(intelligent_choice={ic}) changed {bad[0]}: {b[bad[0]]} -> {a[bad[0]]}')
-                    break
+            # C16 purity / determinism: to_string has no observable effect (not repeated on the long in-order words: cost)
+            if h not in extra_set:
+                counts['C16'] += 1
+                b = observe(h)
+                for ic in (False, True):
+                    a = observe(h + (('str', ic),))
+                    bad = [key for key in ('ordered', 'insertion', 'verdict', 'accepts') if a[key] != b[key]]
+                    if bad and (a['outs'][-1] == 'ok' or not ic):
+                        fail('C16', h, f'to_string(intelligent_choice={ic}) changed {bad[0]}: {b[bad[0]]} -> {a[bad[0]]}')
+                        break
         # ---- C07 / C12 on the last add
         if last[0] == 'unset' and lo == 'ok':
             counts['C11'] += 1
